@@ -57,12 +57,12 @@ def run(ctx):
         raise D.Inconclusive("value shapes never evaluated successfully: %s" % sorted(need - ok_shapes))
     # every unsupported / nil shape (offending leaf first, middle, last at depth 1..3) must occur as the ONLY
     # unsupported-type option of some list, so that accepting it shows (outcome ok, or the class missing from the error)
-    bad_ids = {"badTop", "nilTop"} | {k + "-" + a + b + c for k in ("bad", "nil") for a in "FML" for b in ("",) + tuple("FML")
+    bad_ids = {"badTop", "nilTop", "tnilTop"} | {k + "-" + a + b + c for k in ("bad", "nil", "tnil") for a in "FML" for b in ("",) + tuple("FML")
                                       for c in (("",) if b == "" else ("",) + tuple("FML"))}
     sole = set()
     for o in obs:
         if o["cs"]["mode"] == "E" and o["cs"]["focus"].startswith("fail+"):
-            tags = [t for t in o["cs"]["focus"].split("+")[1:] if t.startswith(("bad", "nil"))]
+            tags = [t for t in o["cs"]["focus"].split("+")[1:] if t.startswith(("bad", "nil", "tnil"))]
             if len(tags) == 1:
                 sole.add(tags[0])
     if not bad_ids <= sole:
